@@ -21,8 +21,8 @@ A_SSE = A_ENGINE + [
 ]
 
 PARTIAL = {
-    "C01": "proved for all inputs: for all nine schemes the public operations keep no state between calls (KeyGen/EDBSetup/TokenGen/Search and everything they call mutate nothing reachable from self or their arguments -- ownership pass), so a search depends only on (index, token) and a token only on (key, keyword), whatever was done before; CJJ14.PiBas and CJJ14.PiPack (Enc |- Repr, Repr |- Search == DB[w], composed client lemma) and the shared toolkit callees; bounded stand-in only: the other seven schemes",
-    "C02": "proved for all inputs: for all nine schemes the public operations keep no state between calls (ownership pass: a token depends only on (key, keyword), whatever tokens were issued before); CJJ14.PiBas, CJJ14.PiPack (absent keyword => empty result, no exception); bounded stand-in only: the other seven schemes",
+    "C01": "proved for all inputs: for all nine schemes the public operations keep no state between calls (KeyGen/EDBSetup/TokenGen/Search and everything they call mutate nothing reachable from self or their arguments -- ownership pass), so a search depends only on (index, token) and a token only on (key, keyword), whatever was done before; CJJ14.PiBas, CJJ14.PiPack and CGKO06.SSE2 (Enc |- Repr, Repr |- Search == DB[w], composed client lemma Search(EDBSetup(K, DB), TokenGen(K, w)) == DB.get(w, [])) and the shared toolkit callees; for SSE-2 the injectivity of the PRP is the fact C15 proves about the real cipher, restated as an inverse function (axiom PRP_inverse), and keyword -> integer injectivity (no leading NUL) is a proved lemma; bounded stand-in only: the other six schemes",
+    "C02": "proved for all inputs: for all nine schemes the public operations keep no state between calls (ownership pass: a token depends only on (key, keyword), whatever tokens were issued before); CJJ14.PiBas, CJJ14.PiPack, CGKO06.SSE2 (absent keyword => empty result, no exception); bounded stand-in only: the other six schemes",
     "C03": "proved for all inputs: key / token / result / encrypted-database serialize + deserialize of all nine schemes (exact ValueError conditions, field layout, deserialize(serialize(x)) == x for every well-formed object; modulo P1 for the pickled parts) except the SSE-1 / SSE-2 key parsers (star-args over a computed list: bounded only); CJJ14.PiBas / PiPack config parsing; bounded stand-in only: the server-side composition through JSON config + wire formats and the two key parsers",
     "C05": "proved for all inputs: CJJ14.PiBas |D| == N, CJJ14.PiPack |D| == number of blocks, and the table builders' sizes (|table| == number of pairs) for PiPtr, Pi2Lev, CT14.Pi and ANSS16.Scheme3 as well; bounded stand-in only: the shape of the whole index for the other seven schemes and value-length uniformity",
     "C06": "proved for all inputs: the label-table builders of CJJ14.PiBas / PiPack / PiPtr / Pi2Lev, CT14.Pi and ANSS16.Scheme3 store labels in strictly ascending order whatever the order of their input (modulo B3); bounded stand-in only: that every table of an index is built through these builders, the DP17 / SSE-1 / SSE-2 layouts, and array placement",
@@ -55,8 +55,8 @@ PROPS = {
         "B2: bytes.fromhex / bytes.hex / str.encode / bytes.decode are abstract (uninterpreted) mutually inverse maps",
     ], bounded=[]),
     "C18": dict(modules=["bits"], assumptions=A_ENGINE, bounded=[]),
-    "C01": dict(modules=["pibas", "pipack", "sse_bounded"], assumptions=A_SSE, bounded=[], partial=PARTIAL["C01"], runtime_checks=[["sse_bounded", "rt_c01_c02"]], own_frames=OWN_FRAMES),
-    "C02": dict(modules=["pibas", "pipack", "sse_bounded"], assumptions=A_SSE, bounded=[], partial=PARTIAL["C02"], runtime_checks=[["sse_bounded", "rt_c01_c02"]], own_frames=OWN_FRAMES),
+    "C01": dict(modules=["pibas", "pipack", "sse2", "sse_bounded"], assumptions=A_SSE, bounded=[], partial=PARTIAL["C01"], runtime_checks=[["sse_bounded", "rt_c01_c02"]], own_frames=OWN_FRAMES),
+    "C02": dict(modules=["pibas", "pipack", "sse2", "sse_bounded"], assumptions=A_SSE, bounded=[], partial=PARTIAL["C02"], runtime_checks=[["sse_bounded", "rt_c01_c02"]], own_frames=OWN_FRAMES),
     "C03": dict(modules=["pibas", "pipack", "structures_all", "producers_all", "sse_bounded"], assumptions=A_SSE, bounded=[], partial=PARTIAL["C03"], runtime_checks=[["sse_bounded", "rt_c03"]]),
     "C04": dict(modules=["pibas", "pipack", "producers_all", "sse_bounded"], assumptions=A_SSE + ["A4/A2 (NOT decided): absence of chance substrings / collisions is probabilistic"], bounded=[],
                 partial=PARTIAL["C04"], runtime_checks=[["sse_bounded", "rt_c04"]], prov_contracts=PROV_CONTRACTS),
